@@ -1,12 +1,16 @@
 import GoldModel.Lemmas.LocksComplete
 import GoldModel.Gen.E11ParentLink
+import GoldModel.Gen.E11TableCache
 /-!
 # C14 — analysis terminates on every workspace shape
 
 Property theorems only (helper lemmas: `Lemmas/Locks.lean`, model: `Model/Locks.lean`).
 Everything is for an arbitrary name type, an arbitrary case folding `norm`, an ARBITRARY list
-of class declarations (any class may name itself, another class, a missing class or nothing
-as its parent, in any letter case; any uses-graph) and an arbitrary sequence of requests.
+of file declarations (`ClassDecl`: any class may name itself, another class, a file without
+header, a missing class or nothing as its parent, in any letter case; any file — with header
+(`header = true`) or WITHOUT class / module header (`header = false`) — may have any uses
+list, incl. itself, cycles among header-less files and between them and classes, and any
+declarations incl. fields of unknown types) and an arbitrary sequence of requests.
 "Bounded time" is termination of the model with every lock released; wall-clock is measured
 by the harness.
 -/
@@ -22,6 +26,15 @@ def currentRule : Rule :=
   ⟨Gold.Gen.ParentLink.foldGuard, Gold.Gen.ParentLink.chainCheck, Gold.Gen.ParentLink.visitedWalks⟩
 
 theorem current_rule_is_repaired : currentRule = Rule.repaired := by decide
+
+/-- the re-entrance guard M-LOCK builds on, re-read from the source on every run: `annotate_doc`
+    stores the table on the document info BEFORE it walks the tree (`annotateBody` publishes first),
+    and `get_symbol_table_for_uri_def_only` hands out the table it finds there WHOEVER owns it — a
+    class, a module or nobody, i.e. a file without header (`ensureWith` / `ensureTable`: `some _ => .ok s`,
+    no condition on `header`).  Without the second half a header-less file that reaches itself through
+    its uses list would be analysed again and again. -/
+theorem current_reentrance_guard :
+    Gold.Gen.TableCache.publishedBeforeWalk = true ∧ Gold.Gen.TableCache.handsOutAnyTable = true := by decide
 
 /-! ## (a) the linking rule never creates a cycle -/
 
@@ -96,10 +109,11 @@ theorem walks_terminate_acyclic (tparent : Nat → Option Nat) (tchildren : Nat 
 
 /-! ## the property on the model: every request returns, on every workspace -/
 
-/-- **FULL (C14 on the model)**: for EVERY list of class declarations — any class may name
-    itself, another class, a missing class or nothing as parent, in any letter case; any
-    uses-graph; files without a class — and every sequence of requests of every kind (in any
-    order), each request returns: no lookup dead-locks, no walk runs on for ever, the model's
+/-- **FULL (C14 on the model)**: for EVERY list of file declarations — any class may name
+    itself, another class, a file without header, a missing class or nothing as parent, in any
+    letter case; any uses-graph over classes AND files without class / module header (self-use,
+    cycles among header-less files, between them and classes), any declarations incl. fields of
+    unknown types — and every sequence of requests of every kind (in any order), each request returns: no lookup dead-locks, no walk runs on for ever, the model's
     own fuel is never what stops it.  Afterwards the pointer graph is acyclic and in range, so
     every later lookup returns with the lock set empty (`lookups_after_requests_terminate`). -/
 theorem requests_complete (norm : α → α) (ds : List (ClassDecl α)) (reqs : List (Kind × Nat)) :
@@ -118,10 +132,10 @@ theorem requests_complete_current (norm : α → α) (ds : List (ClassDecl α)) 
 Names are numbers and `norm = (· % 10)`: `11` is "`1` in another letter case". -/
 
 /-- `class a (A)` with one method -/
-def selfDs : List (ClassDecl Nat) := [⟨1, some 11, [.plain 5], [], false, [5]⟩]
+def selfDs : List (ClassDecl Nat) := [⟨1, some 11, [.plain 5], [], false, [5], true⟩]
 
 /-- `class A (B)` and `class B (A)`, one method each -/
-def mutualDs : List (ClassDecl Nat) := [⟨1, some 2, [.plain 5], [], false, [5]⟩, ⟨2, some 1, [.plain 6], [], false, [6]⟩]
+def mutualDs : List (ClassDecl Nat) := [⟨1, some 2, [.plain 5], [], false, [5], true⟩, ⟨2, some 1, [.plain 6], [], false, [6], true⟩]
 
 /-- **`class aCyc (ACYC)`**: the case-sensitive guard lets the class link its own table as parent;
     the diagnostics request then dead-locks in its first lookup -/
@@ -171,6 +185,25 @@ example :
     (runRequests Rule.repaired (· % 10) selfDs [(.diag, 0), (.defn, 0), (.comp, 0), (.hier, 0), (.hierx, 0)] St.empty).stuck = none ∧
     (runRequests Rule.repaired id mutualDs [(.diag, 0), (.hier, 1), (.hierx, 0), (.comp, 1)] St.empty).stuck = none ∧
     (runRequests Rule.repaired id mutualDs [(.hierx, 1), (.diag, 1), (.defn, 0), (.hier, 0)] St.empty).stuck = none := by
+  refine ⟨by decide, by decide, by decide⟩
+
+/-- files WITHOUT header (the last component `false`): `1` uses `2`, `2` uses `1` and itself, each
+    with a field of an unknown type (`.viaUses`: looked up through the uses list); class `3` uses `1`
+    and class `4` names the header-less file `1` as its parent -/
+def headerlessDs : List (ClassDecl Nat) :=
+  [⟨1, none, [.plain 9, .viaUses 5], [2], true, [5], false⟩,
+   ⟨2, none, [.plain 9, .viaUses 6], [1, 2], false, [6], false⟩,
+   ⟨3, none, [.viaUses 7], [1], true, [7], true⟩,
+   ⟨4, some 1, [.plain 8], [], false, [8], true⟩]
+
+/-- non-vacuity for header-less files: every kind of request on every file of `headerlessDs`, from the
+    class that uses them, from the subclass and on the header-less files themselves: all return, and the
+    analyses really nest (the request on class `3` creates the tables of `1` and `2`) -/
+example :
+    (runRequests Rule.repaired id headerlessDs
+      [(.diag, 2), (.defn, 2), (.hier, 3), (.hierx, 3), (.diag, 0), (.comp, 1), (.hier, 0), (.hierx, 1), (.defn, 1)] St.empty).stuck = none ∧
+    (runRequests Rule.repaired id headerlessDs [(.diag, 2)] St.empty).st.tables.length = 3 ∧
+    (runRequests Rule.repaired id headerlessDs [(.hierx, 1), (.hier, 0), (.diag, 3)] St.empty).stuck = none := by
   refine ⟨by decide, by decide, by decide⟩
 
 end Gold.C14
